@@ -33,6 +33,7 @@ pub fn corpus(seed: u64, draws: u64, foreign_ls: &[usize]) -> Vec<CorpusFrame> {
                 gen_seed: r.next(),
                 p_len_max: *r.pick(&[0.0, 0.0, 0.2, 1.0]),
                 p_field_max: *r.pick(&[0.0, 0.05]),
+                force: Vec::new(),
             };
             attempt += 1;
             if let Some(f) = gen_frame(&mut b, &spec) {
@@ -233,7 +234,10 @@ pub fn storms_for(frame: &CorpusFrame, faults: &[(&'static str, Vec<u32>)], vari
     let per = (60 * 1024 / frame.bytes.len()).max(1).min(512);
     let mut out = Vec::new();
     for (ci, chunk) in faults.chunks(per).enumerate() {
-        let mut ps: Vec<Piece> = Vec::with_capacity(chunk.len() + 1);
+        let mut ps: Vec<Piece> = Vec::with_capacity(chunk.len() + 2);
+        // an intact copy goes first: the damaged copies that follow then pass through the same
+        // rover buffer positions an accepted frame has just occupied
+        ps.push(piece(&format!("{}+dup", frame.label), "lib", frame.bytes.clone(), true));
         for (class, bits) in chunk {
             assert!(c04_pattern_ok(class, bits, frame.bytes.len()), "sweep produced a pattern outside its class: {} {:?}", class, bits);
             let mut p = piece(&format!("{}+dup+{}", frame.label, class), "lib", frame.bytes.clone(), false);
@@ -342,7 +346,7 @@ pub fn chunking_trace(prop: Prop, name: &str, ps: &[Piece], mask: u64, variant: 
 /// pattern is a single-bit error or a burst of span <= 24, i.e. inside C04's
 /// guaranteed-detectable classes. Returns the first pattern the real framer
 /// does not reject as NotValid, as a one-frame trace carrying its ground truth.
-pub fn checksum_window_slice(frame: &CorpusFrame, top: u8) -> (u64, Option<StreamTrace>) {
+pub fn checksum_window_slice(frame: &CorpusFrame, top: u8, via_scanner: bool) -> (u64, Option<StreamTrace>) {
     use rtcm_rs::prelude::*;
     let n = frame.bytes.len();
     let mut buf = frame.bytes.clone();
@@ -362,7 +366,7 @@ pub fn checksum_window_slice(frame: &CorpusFrame, top: u8) -> (u64, Option<Strea
         done += 1;
         let mut rejected = matches!(std::panic::catch_unwind(std::panic::AssertUnwindSafe(|| MessageFrame::new(&buf).map(|_| ()))), Ok(Err(RtcmError::NotValid)));
         let mut prefix: &[u8] = &[];
-        if rejected {
+        if rejected && via_scanner {
             // the same damaged frame behind a complete candidate that fails its checksum, in ONE
             // scanner call (state carried from one candidate to the next inside a call would show here)
             for pre in [&DEAD_L0[..], &DEAD_L2[..]] {
